@@ -370,3 +370,37 @@ def body_calls_named(body, name):
 
 def calls_to_path_suffix(body, suffix):
     return [(b, c, t) for (b, c, t) in body.calls() if c.target.endswith(suffix) or c.path.endswith(suffix)]
+
+
+def enum_fn_table(body, switch_block, nvariants=None):
+    """For `match <enum> { A | B => k1, C => k2, _ => k3 }` compiled to a switch at `switch_block`:
+    discriminant value -> integer constant stored into the return place along that arm (None if not constant)."""
+    t = body.term(switch_block)
+    out = {}
+    listed = set()
+    for v, tgt in t["arms"]:
+        listed.add(v)
+        out[v] = _ret_const(body, tgt)
+    if nvariants is not None:
+        k = _ret_const(body, t["otherwise"])
+        for v in range(nvariants):
+            if v not in listed:
+                out[v] = k
+    return out
+
+
+def _ret_const(body, blk, depth=0):
+    if depth > 8:
+        return None
+    for s in body.stmts(blk):
+        if s["k"] == "assign" and s["p"][0] == 0 and not s["p"][1] and s["rv"]["k"] == "use":
+            v = op_int(s["rv"]["op"])
+            if v is not None:
+                return v
+            c = op_const(s["rv"]["op"])
+            if c is not None and "item" in c:
+                return ("item", c["item"])
+    succ = body.succ(blk)
+    if len(succ) == 1:
+        return _ret_const(body, succ[0], depth + 1)
+    return None
